@@ -270,77 +270,82 @@ def evaluate_expression(expr, options=None, locals_=None, builtins=True):
 
         # Non-short-circuiting binary operators
         right_value = evaluate_expression(expr['binary']['right'], options, locals_, builtins)
-        if bin_op == '+':
-            # number + number
-            if _is_number(left_value) and _is_number(right_value):
-                return left_value + right_value
+        try:
+            if bin_op == '+':
+                # number + number
+                if _is_number(left_value) and _is_number(right_value):
+                    return left_value + right_value
 
-            # string + string
-            elif isinstance(left_value, str) and isinstance(right_value, str):
-                return left_value + right_value
+                # string + string
+                elif isinstance(left_value, str) and isinstance(right_value, str):
+                    return left_value + right_value
 
-            # string + <any>
-            elif isinstance(left_value, str):
-                return left_value + value_string(right_value)
-            elif isinstance(right_value, str):
-                return value_string(left_value) + right_value
+                # string + <any>
+                elif isinstance(left_value, str):
+                    return left_value + value_string(right_value)
+                elif isinstance(right_value, str):
+                    return value_string(left_value) + right_value
 
-            # datetime + number
-            elif isinstance(left_value, datetime.date) and _is_number(right_value):
-                left_dt = value_normalize_datetime(left_value)
-                return left_dt + datetime.timedelta(milliseconds=right_value)
-            elif _is_number(left_value) and isinstance(right_value, datetime.date):
-                right_dt = value_normalize_datetime(right_value)
-                return right_dt + datetime.timedelta(milliseconds=left_value)
+                # datetime + number
+                elif isinstance(left_value, datetime.date) and _is_number(right_value):
+                    left_dt = value_normalize_datetime(left_value)
+                    return left_dt + datetime.timedelta(milliseconds=right_value)
+                elif _is_number(left_value) and isinstance(right_value, datetime.date):
+                    right_dt = value_normalize_datetime(right_value)
+                    return right_dt + datetime.timedelta(milliseconds=left_value)
 
-        elif bin_op == '-':
-            # number - number
-            if _is_number(left_value) and _is_number(right_value):
-                return left_value - right_value
+            elif bin_op == '-':
+                # number - number
+                if _is_number(left_value) and _is_number(right_value):
+                    return left_value - right_value
 
-            # datetime - datetime
-            elif isinstance(left_value, datetime.date) and isinstance(right_value, datetime.date):
-                left_dt = value_normalize_datetime(left_value)
-                right_dt = value_normalize_datetime(right_value)
-                return value_round_number((left_dt - right_dt).total_seconds() * 1000, 0)
+                # datetime - datetime
+                elif isinstance(left_value, datetime.date) and isinstance(right_value, datetime.date):
+                    left_dt = value_normalize_datetime(left_value)
+                    right_dt = value_normalize_datetime(right_value)
+                    return value_round_number((left_dt - right_dt).total_seconds() * 1000, 0)
 
-        elif bin_op == '*':
-            # number * number
-            if _is_number(left_value) and _is_number(right_value):
-                return left_value * right_value
+            elif bin_op == '*':
+                # number * number
+                if _is_number(left_value) and _is_number(right_value):
+                    return left_value * right_value
 
-        elif bin_op == '/':
-            # number / number
-            if _is_number(left_value) and _is_number(right_value):
-                return left_value / right_value
+            elif bin_op == '/':
+                # number / number
+                if _is_number(left_value) and _is_number(right_value):
+                    return left_value / right_value
 
-        elif bin_op == '==':
-            return value_compare(left_value, right_value) == 0
+            elif bin_op == '==':
+                return value_compare(left_value, right_value) == 0
 
-        elif bin_op == '!=':
-            return value_compare(left_value, right_value) != 0
+            elif bin_op == '!=':
+                return value_compare(left_value, right_value) != 0
 
-        elif bin_op == '<=':
-            return value_compare(left_value, right_value) <= 0
+            elif bin_op == '<=':
+                return value_compare(left_value, right_value) <= 0
 
-        elif bin_op == '<':
-            return value_compare(left_value, right_value) < 0
+            elif bin_op == '<':
+                return value_compare(left_value, right_value) < 0
 
-        elif bin_op == '>=':
-            return value_compare(left_value, right_value) >= 0
+            elif bin_op == '>=':
+                return value_compare(left_value, right_value) >= 0
 
-        elif bin_op == '>':
-            return value_compare(left_value, right_value) > 0
+            elif bin_op == '>':
+                return value_compare(left_value, right_value) > 0
 
-        elif bin_op == '%':
-            # number % number
-            if _is_number(left_value) and _is_number(right_value):
-                return left_value % right_value
+            elif bin_op == '%':
+                # number % number
+                if _is_number(left_value) and _is_number(right_value):
+                    return left_value % right_value
 
-        else: # bin_op == '**'
-            # number ** number
-            if _is_number(left_value) and _is_number(right_value):
-                return left_value ** right_value
+            else: # bin_op == '**'
+                # number ** number
+                if _is_number(left_value) and _is_number(right_value):
+                    result = left_value ** right_value
+                    return result if not isinstance(result, complex) else None
+        except (ArithmeticError, ValueError):
+            # Division by zero, overflow, out-of-range datetime, ... - the operation is invalid for these values
+            pass
 
         # Invalid operation values
         return None
